@@ -58,6 +58,7 @@ func anyRouter(*http.Request, *types.Context) bool { return true }
 //
 // 前一个对象返回的实例将作为下一个对象的输入参数。
 func AndMatcher(m ...Matcher) Matcher {
+	m = slices.Clone(m) // 不持有调用方的切片
 	return MatcherFunc(func(r *http.Request, ctx *types.Context) bool {
 		path := r.URL.Path
 		params := copyParams(ctx)
@@ -95,6 +96,7 @@ func restoreParams(ctx *types.Context, params map[string]string) {
 
 // OrMatcher 仅需符合一个要求
 func OrMatcher(m ...Matcher) Matcher {
+	m = slices.Clone(m) // 不持有调用方的切片
 	return MatcherFunc(func(r *http.Request, ctx *types.Context) bool {
 		for _, mm := range m {
 			if ok := mm.Match(r, ctx); ok {
@@ -194,30 +196,19 @@ func (hs *Hosts) Delete(domain string) { hs.tree.Remove(lowerDomain(domain)) }
 func lowerDomain(domain string) string {
 	var b strings.Builder
 	b.Grow(len(domain))
-	start, depth := 0, 0
+	start, inside := 0, false
 	for i := 0; i < len(domain); i++ {
-		switch domain[i] {
-		case '{':
-			if depth == 0 {
-				b.WriteString(strings.ToLower(domain[start:i]))
-				start = i
-			}
-			depth++
-		case '}':
-			if depth > 0 {
-				depth--
-				if depth == 0 {
-					b.WriteString(domain[start : i+1])
-					start = i + 1
-				}
-			}
+		switch {
+		case !inside && domain[i] == '{':
+			b.WriteString(strings.ToLower(domain[start:i]))
+			start, inside = i, true
+		case inside && domain[i] == '}': // 与 syntax 包一致：参数在第一个 } 处结束
+			b.WriteString(domain[start : i+1])
+			start, inside = i+1, false
 		}
 	}
-	if depth == 0 {
-		b.WriteString(strings.ToLower(domain[start:]))
-	} else {
-		b.WriteString(domain[start:])
-	}
+	// 没有对应 } 的 { 只是普通的字符
+	b.WriteString(strings.ToLower(domain[start:]))
 	return b.String()
 }
 
